@@ -75,7 +75,7 @@ def run_case(case, keep_world=False, monitors=None):
         for mname in opts.get('monitors', ()):
             from . import monitors as monmod
             mons.append(monmod.make(mname, w, case))
-        w.monitors = [m for m in mons if hasattr(m, 'after_step')]
+        w.monitors = [m for m in mons if hasattr(m, 'after_step') or hasattr(m, 'on_clock_jump')]
         for mon in mons:
             if hasattr(mon, 'attach'):
                 mon.attach(w, case)
@@ -83,6 +83,7 @@ def run_case(case, keep_world=False, monitors=None):
             c = case['crash']
             w.plan_crash(c['pid'] % cfg.m, c['step'], c.get('how', 'fin'), c.get('cut_frac'))
         prog = case['prog']
+        w.case_prog = prog
 
         def main_factory(world, p):
             return fam.party_main(world, p, prog, case) if hasattr(fam, 'party_main') \
